@@ -50,6 +50,11 @@ def gen_cases(tier, seed):
                         gen[k] = 0.0
                     elif kind == "pos" and u < 0.15:
                         gen[k] = 1.0
+                    elif kind == "pos" and u < 0.3:
+                        # next to (not at) the special values 1 and the default: 1 +- a few 1e-6, default * (1 + 2e-6)
+                        gen[k] = [1.000003, 0.999995, 1.0 + 1e-9, R.DEFAULTS[fam][k] * (1 + 2e-6)][int(rng.integers(4))]
+                    elif kind in ("loc", "loc+") and u < 0.5:
+                        gen[k] = [3e-6, 1e-9, -2e-7 if kind == "loc" else 2e-7][int(rng.integers(3))]  # next to zero, not zero
                 methods = ["mle"]
                 if fam == "expweib":
                     methods += ["lsq", "wlsq"]
@@ -66,6 +71,18 @@ def gen_cases(tier, seed):
                             "sub": int(rng.integers(1 << 31)),
                         }
                     )
+    # every single fixed positive parameter once next to the special value 1 (and once next to its default)
+    nrng = np.random.default_rng([seed, 11, 5])
+    for fam in S.ALL_FAMS:
+        for k in R.PARAMS[fam]:
+            if S.KIND[fam][k] != "pos" or len(R.PARAMS[fam]) < 2:
+                continue
+            for val in (1.000003, R.DEFAULTS[fam][k] * (1 - 4e-6)):
+                gen = S.draw_params(nrng, fam, S.RANGE)
+                gen[k] = float(val)
+                if not R.admissible(fam, gen):
+                    continue
+                cases.append({"fam": fam, "fixed": {k: gen[k]}, "gen": gen, "method": "mle", "weights": None, "source": "own", "n": 1000, "sub": int(nrng.integers(1 << 31))})
     return cases
 
 
